@@ -996,7 +996,10 @@ pub fn det_uuid(seed: u64, kind: u64, n: u64) -> Uuid {
 /// Which family the client ids of this process are drawn from (ids are values too: a lossy
 /// encoding somewhere below can make two of them the same key).
 /// 0: pseudo-random v4 ids; 1: all-decimal ids that differ in their last digit only; 2: tiny
-/// ids (…0001, …0002, …); 3: the nil id, the all-ones id, and ids differing in one bit.
+/// ids (…0001, …0002, …); 3: the nil id, the all-ones id, and ids differing in one bit;
+/// 4: pseudo-random client ids, but the *fresh* ids a client invents (a first parent is the
+/// client's to choose) are combinations of client ids - A^B, A-B, B-A, A^C, A+B, B^C, A^B^C -
+/// which a non-injective folding of (client, id) into one key maps onto another client's slot.
 static ID_FAMILY: std::sync::atomic::AtomicU8 = std::sync::atomic::AtomicU8::new(0);
 
 pub fn set_id_family(f: u8) {
@@ -1047,7 +1050,16 @@ impl SymTab {
         if let Some(u) = self.to_uuid.get(&sid) {
             return *u;
         }
-        let u = det_uuid(self.seed, 2, sid as u64);
+        let mut u = det_uuid(self.seed, 2, sid as u64);
+        if ID_FAMILY.load(Ordering::SeqCst) == 4 {
+            let a = client_uuid(self.seed, 0).as_u128();
+            let b = client_uuid(self.seed, 1).as_u128();
+            let c = client_uuid(self.seed, 2).as_u128();
+            let combos = [a ^ b, a.wrapping_sub(b), b.wrapping_sub(a), a ^ c, a.wrapping_add(b), b ^ c, a ^ b ^ c];
+            if let Some(x) = combos.iter().map(|x| Uuid::from_u128(*x)).find(|x| !self.from_uuid.contains_key(x)) {
+                u = x;
+            }
+        }
         self.bind(sid, u);
         u
     }
